@@ -228,6 +228,19 @@ fn names(v: &[Item]) -> Vec<&str> {
     v.iter().map(|x| x.0.split(' ').next().unwrap_or("")).collect()
 }
 
+/// where two streams differ: names when the items differ, otherwise the first differing content
+fn diff(a: &[Item], b: &[Item]) -> String {
+    if names(a) != names(b) {
+        return format!("items {:?} vs {:?}", names(a), names(b));
+    }
+    for (x, y) in a.iter().zip(b) {
+        if x != y {
+            return format!("same items, but {:?} was processed differently: input {:?} vs {:?}{}", names(&[x.clone()])[0], x.1, y.1, if x.2 != y.2 { " (token ids / labels differ)" } else { "" });
+        }
+    }
+    "identical".to_string()
+}
+
 fn check_grid_unit(run: &mut Run, scratch: &Scratch, u: &UnitDesc) {
     let files = write_files(scratch, "g", &u.lens);
     let total: usize = u.lens.iter().sum();
@@ -273,7 +286,7 @@ fn check_grid_unit(run: &mut Run, scratch: &Scratch, u: &UnitDesc) {
                         run.compared += 1;
                         let flat: Vec<Item> = out.iter().flatten().cloned().collect();
                         if flat != r {
-                            viol!("independent-of-threads-and-buffer", cfgjson(&c), format!("stream {:?} differs from the single-process stream {:?} (or item contents differ)", names(&flat), names(&r)));
+                            viol!("independent-of-threads-and-buffer", cfgjson(&c), format!("stream vs single-process stream: {}", diff(&flat, &r)));
                         } else if out != greedy_chunks(&r, bl, blt) {
                             viol!("batches-are-greedy-chunks", cfgjson(&c), format!("batch sizes {:?}", out.iter().map(|b| b.len()).collect::<Vec<_>>()));
                         }
@@ -349,10 +362,10 @@ fn check_grid_unit(run: &mut Run, scratch: &Scratch, u: &UnitDesc) {
                 let mut es = exp.clone();
                 es.sort();
                 if us != es {
-                    viol!("rank-union-is-restricted-stream", cfgjson(&Cfg { dist: Some((0, w)), ..c0.clone() }), format!("union over {w} ranks {:?}, single-process stream restricted to [skip, limit) {:?}", names(&us), names(&es)));
+                    viol!("rank-union-is-restricted-stream", cfgjson(&Cfg { dist: Some((0, w)), ..c0.clone() }), format!("union over {w} ranks vs single-process stream restricted to [skip, limit): {}", diff(&us, &es)));
                 }
                 if w == 1 && union != exp {
-                    viol!("skip-limit-order", cfgjson(&c0), format!("{:?} vs {:?}", names(&union), names(&exp)));
+                    viol!("skip-limit-order", cfgjson(&c0), diff(&union, &exp));
                 }
                 // (3) restart after k items
                 for k in 0..=exp.len() {
@@ -370,7 +383,7 @@ fn check_grid_unit(run: &mut Run, scratch: &Scratch, u: &UnitDesc) {
                                 run.compared += 1;
                                 let o: Vec<Item> = o.into_iter().flatten().collect();
                                 if w == 1 && o != exp[k..] {
-                                    viol!("fast-forward-resumes-in-order", cfgjson(&c), format!("after fast_forward({k}): {:?}, expected {:?}", names(&o), names(&exp[k..])));
+                                    viol!("fast-forward-resumes-in-order", cfgjson(&c), format!("after fast_forward({k}): {}", diff(&o, &exp[k..])));
                                 }
                                 un.extend(o);
                             }
@@ -381,7 +394,7 @@ fn check_grid_unit(run: &mut Run, scratch: &Scratch, u: &UnitDesc) {
                     let mut e: Vec<Item> = exp[k..].to_vec();
                     e.sort();
                     if uns != e {
-                        viol!("fast-forward-resumes-with-remaining-items", cfgjson(&Cfg { dist: Some((0, w)), ff: k, ..c0.clone() }), format!("union over {w} ranks after fast_forward({k}): {:?}, expected {:?}", names(&uns), names(&e)));
+                        viol!("fast-forward-resumes-with-remaining-items", cfgjson(&Cfg { dist: Some((0, w)), ff: k, ..c0.clone() }), format!("union over {w} ranks after fast_forward({k}) vs the remaining items of the uninterrupted stream: {}", diff(&uns, &e)));
                     }
                 }
             }
